@@ -42,6 +42,13 @@ add("C11", "exploration", "runtime monitoring: field-wise comparison of decode(e
     "Random mementos over the whole argument domain are round-tripped through json text; each document is validated structurally; 60 golden documents written by the pinned tree must keep decoding to their recorded summaries.",
     "Structural equality of references; golden documents were produced by the pinned commit 6149a38.", "DESIGN.md §4 C11")
 
+add("C10", "exploration", "runtime monitoring: stored invocation / resource / dependency records of every recomputed call compared with a closed form simulated from the generated call-tree data, over all subsets of sub-calls memoized beforehand",
+    "Generated call DAGs with direct, keyword, partial, function-valued, batch (duplicates), failing and not-to-be-memoized sub-calls; for every subset (all 2^n for n<=5) of memoized sub-calls the recomputed records must equal the closed form; single and batch root invocation; three store configurations.",
+    "The tree simulation (vf.trees.simulate) and the documented argument hash are trusted; dependencies are compared as sets of qualified names.", "DESIGN.md §4 C10")
+add("C16", "exploration", "runtime monitoring: recorder of parameters seen by bodies, look-ups of stored entries under effective and foreign contexts, recorded invocation contexts, body executions after a context change, outcome of prevented nested calls",
+    "Call trees with context dictionaries attached at the root and at random inner edges; every entry must be found under its effective context only, with the documented hash; re-runs under the same / a different root context must execute exactly the predicted bodies; prevented nested calls must fail without executing.",
+    "Effective-context closed form in vf.trees.simulate (inherit unless the edge attaches its own, which replaces entirely).", "DESIGN.md §4 C16")
+
 NOT_BUILT = "check not built yet in this round (design in DESIGN.md §4); will be claimed once its monitor exists"
 
 
